@@ -54,6 +54,7 @@ def plan(tier, seed):
     shards = [{"part": "pairs", "seed": seed, "k": k, "n": n} for k in range(14)]
     shards += [{"part": "ambient", "seed": seed, "k": k, "n": 120 if tier == "quick" else 1500} for k in range(2)]
     shards += [{"part": "members", "seed": seed, "k": k, "n": 6 if tier == "quick" else 120} for k in range(4)]
+    shards += [{"part": "fss", "seed": seed, "k": k, "n": 8 if tier == "quick" else 150} for k in range(4)]
     return shards
 
 
@@ -105,8 +106,11 @@ def run_pairs(desc, ctx):
             argv, used = table[metric]
             field = rng.choice(used)
             victim = rng.randrange(F)
-            mode = rng.choice(["scattered", "scattered", "slice", "whole-input"])
-            if mode == "scattered":
+            mode = rng.choice(["scattered", "scattered", "slice", "time-slice", "whole-input"])
+            if mode == "time-slice":
+                t0 = rng.choice(times)
+                K = [c for c in cases if c[0] == t0]
+            elif mode == "scattered":
                 K = rng.sample(cases, max(1, int(len(cases) * rng.choice([0.1, 0.3, 0.5]))))
             elif mode == "slice":
                 l0 = rng.choice(leads)
@@ -317,9 +321,179 @@ def run_members(desc, ctx):
         ctx.count("would_change", 1 if marked else 0)
 
 
+FSS_LOCS = [[1, 60.0, 10.5, 100.0], [2, 60.0625, 10.5, 120.0], [3, 60.0, 10.625, 90.0], [4, 59.9375, 10.75, 94.0],
+            [5, 59.5, 9.75, 0.0], [6, 61.25, 11.0, 250.0], [7, 60.375, 5.25, 12.0], [8, 63.5, 10.5, 30.0], [9, 58.0, 8.0, 5.0],
+            [10, 60.03125, 10.5625, 140.0]]
+FSS_SCALES = [2, 4, 8, 16, 32, 64, 128, 256, 512, 1024]
+
+
+def _haversine_km(a, b):
+    import math
+    la1, lo1, la2, lo2 = [math.radians(x) for x in (a[1], a[2], b[1], b[2])]
+    h = math.sin((la2 - la1) / 2) ** 2 + math.cos(la1) * math.cos(la2) * math.sin((lo2 - lo1) / 2) ** 2
+    return 2 * 6371.0 * math.asin(math.sqrt(h))
+
+
+def ref_fss_spatial(ds, k, thr, scale_km):
+    """Fractions skill score of input k at one spatial scale, missing cases dropped (None = scale too close to a
+    pair distance to decide the neighbourhoods independently; nan = undefined)."""
+    times, leads, locs = refmodel.common_dims(ds)
+    L = len(locs)
+    for a in locs:
+        for b in locs:
+            dkm = _haversine_km(a, b)
+            if a is not b and abs(dkm - scale_km) < 0.02 * scale_km:
+                return None
+    vals = {}
+    for t in times:
+        for l in leads:
+            for s in locs:
+                vals[(t, l, s[0])] = refmodel.case_values(ds, k, [("obs",), ("fcst",)], t, l, s[0])
+    bs, sum_obs, count = [], 0.0, 0
+    for a in locs:
+        nb = [b for b in locs if _haversine_km(a, b) < scale_km]
+        if len(nb) <= 3:
+            continue
+        fo, ff = [], []
+        for t in times:
+            for l in leads:
+                v = [vals[(t, l, b[0])] for b in nb]
+                v = [x for x in v if x is not None]
+                if not v:
+                    continue          # no valid case in this neighbourhood at this (time, lead time): dropped
+                fo.append(sum(1.0 for x in v if x[0] > thr) / len(v))
+                ff.append(sum(1.0 for x in v if x[1] > thr) / len(v))
+        if not fo:
+            count += 1
+            sum_obs = float("nan")
+            continue
+        bs.append(sum((x - y) ** 2 for x, y in zip(fo, ff)) / len(fo))
+        sum_obs += sum(fo) / len(fo)
+        count += 1
+    if count == 0 or sum_obs != sum_obs or not bs:
+        return float("nan")
+    mo = sum_obs / count
+    unc = mo * (1 - mo)
+    if not unc > 0:
+        return float("nan")
+    return (unc - sum(bs) / len(bs)) / unc
+
+
+def run_fss(desc, ctx):
+    """Fractions skill score (neighbourhood fractions): a (time, lead time) whose whole neighbourhood is missing must be
+    dropped, never counted as 'no event, perfectly forecast'.  Oracles: marked == deleted, and an independent evaluation of the
+    neighbourhood-fraction definition with missing cases dropped."""
+    rng = random.Random("C04-fss-%s-%s" % (desc["seed"], desc["k"]))
+    for ci in range(desc["n"]):
+        F = rng.choice([1, 2])
+        ds = gen.make_dataset(rng, n_inputs=F, miss=0.0, sparse=0.0, same_dims=True, max_t=4, max_l=3, vrange=(0, 12),
+                              loc_pool=FSS_LOCS, n_locs=rng.randint(5, 10), integerish=rng.random() < 0.5)
+        times, leads, locs = refmodel.common_dims(ds)
+        cases = [(t, l, s[0]) for t in times for l in leads for s in locs]
+        thr = rng.choice([3.0, 5.0, 6.0, 8.0])
+        victim = rng.randrange(F)
+        field = rng.choice(["obs", "fcst"])
+        mode = rng.choice(["time-slice", "lead-slice", "run", "run", "scattered"])
+        if mode == "time-slice":
+            t0 = rng.choice(times)
+            K = [c for c in cases if c[0] == t0]
+        elif mode == "lead-slice":
+            l0 = rng.choice(leads)
+            K = [c for c in cases if c[1] == l0]
+        elif mode == "run":
+            runs = rng.sample([(t, l) for t in times for l in leads], max(1, len(times) * len(leads) // 3))
+            K = [c for c in cases if (c[0], c[1]) in runs]
+        else:
+            K = rng.sample(cases, max(1, len(cases) // 4))
+        vin = ds["inputs"][victim]
+        a_in = dict(vin)
+        a_in["cells"] = {k: dict(c) for k, c in vin["cells"].items()}
+        for (t, l, s) in K:
+            a_in["cells"][gen.ck(t, l, s)][field] = None
+        a_in["style"] = {}
+        A = {"inputs": [dict(i) for i in ds["inputs"]], "clim": None}
+        A["inputs"][victim] = a_in
+        dead = set(gen.ck(t, l, s) for (t, l, s) in K)
+        b_in = dict(vin)
+        b_in["cells"] = {k: dict(c) for k, c in vin["cells"].items() if k not in dead}
+        b_in["fmt"] = "text"
+        b_in["name"] = vin["name"].rsplit(".", 1)[0] + ".txt"
+        b_in["style"] = {}
+        base = os.path.join(ctx.workdir, "f%d" % ci)
+        da, db = os.path.join(base, "a"), os.path.join(base, "b")
+        os.makedirs(da)
+        os.makedirs(db)
+        enc_rng = random.Random(rng.random())
+        pa = [gen.write_input(a_in if j == victim else dict(inp, style={}), da, enc_rng) for j, inp in enumerate(A["inputs"])]
+        enc = "+".join(a_in["style"].get("tokens", a_in["style"].get("enc", ["?"])))
+        pb = []
+        if b_in["cells"]:
+            for j, inp in enumerate(ds["inputs"]):
+                w = dict(b_in) if j == victim else dict(inp)
+                w["style"] = {}
+                if j == victim:
+                    gen.prune_dims(w)
+                    if list(w["leadtimes"]) != list(vin["leadtimes"]) or [x[0] for x in w["locs"]] != [x[0] for x in vin["locs"]]:
+                        # deleting removed a lead time or a station altogether: the scales / neighbourhoods themselves (the
+                        # x axis of this diagram) are then different, so the two runs are not comparable row by row
+                        pb = None
+                        break
+                pb.append(gen.write_input(w, db, None))
+            if pb is None:
+                pb = []
+                ctx.count("fss_deleted_variant_not_comparable")
+        case = {"ds": ds, "metric": "fss", "field": field, "victim": victim, "mode": mode, "K": K[:60], "encoding": enc, "threshold": thr}
+        for axis in ("location", "leadtime"):
+            cmd = ["-m", "fss", "-r", gen.fnum(thr), "-x", axis, "-type", "csv"]
+            oa = runner.run_cli(pa + cmd)
+            ctx.count("pairs")
+            ctx.count("fss_pairs")
+            sig = "%s|%s|fss-%s|%s" % (vin["fmt"] + ":" + enc, field, axis, mode)
+            if oa.status == "crash":
+                ctx.violation("crash-on-missing|%s@%s" % (oa.exc_type, oa.where), "verif <A> %s\n%s" % (" ".join(cmd), oa.tb), case)
+                continue
+            if oa.status != "ok":
+                ctx.case(sig, False)
+                continue
+            ra = csv_rows(oa, F)
+            rb = {}
+            if pb:
+                ob = runner.run_cli(pb + cmd)
+                if ob.status == "crash":
+                    ctx.violation("crash-on-sparse|%s@%s" % (ob.exc_type, ob.where), ob.tb, case)
+                    continue
+                rb = csv_rows(ob, F) if ob.status == "ok" else {}
+            nontrivial = False
+            for key, vals in ra.items():
+                ctx.count("rows_compared")
+                if key in rb and not all(same_number(x, y) for x, y in zip(vals, rb[key])):
+                    ctx.violation("marked-differs-from-deleted|%s|fss" % field,
+                                  "-m fss -r %s -x %s: field %s of input %d marked missing (%s, %s) gives row %s = %s, but with those rows "
+                                  "deleted %s" % (thr, axis, field, victim, enc, mode, key, vals, rb[key]), case)
+                if axis == "location":
+                    for k in range(F):
+                        want = ref_fss_spatial(A, k, thr, float(key[0]))
+                        if want is None:
+                            continue
+                        ctx.count("fss_reference_checks")
+                        if want == want:
+                            nontrivial = True
+                        got = vals[k]
+                        ok = (got.lower() == "nan") if want != want else same_number(got, "%.10g" % want) or abs(float(got) - want) < 2e-6
+                        if not ok:
+                            ctx.violation("fss-counts-missing-neighbourhood|%s" % mode,
+                                          "-m fss -r %s scale %s km input %d: csv %s, neighbourhood fractions over the valid cases give %r "
+                                          "(field %s of input %d missing at %d cases: %s, %s)"
+                                          % (thr, key[0], k, got, want, field, victim, len(K), enc, mode), case)
+            ctx.case(sig, nontrivial or bool(rb), {"metric": "fss", "axis": axis, "field": field, "encoding": enc, "mode": mode,
+                                                     "marked_cases": len(K), "locations": len(locs)})
+
+
 def run_shard(desc, ctx):
     if desc["part"] == "members":
         return run_members(desc, ctx)
+    if desc["part"] == "fss":
+        return run_fss(desc, ctx)
     if desc["part"] == "pairs":
         run_pairs(desc, ctx)
     else:
